@@ -26,7 +26,8 @@ BASE = [0x1a2b, 0x3c4d, 0x5e6f, 0x7081]
 
 
 def syscall_names():
-    return [n for n in D.supported_names() if n.startswith('BSC_') or n.startswith('MSC_')]
+    # the search runs on every registered syscall / trap decoder, translated or not
+    return [n for n in D.all_handler_names() if n.startswith('BSC_') or n.startswith('MSC_')]
 
 
 def render(name, start, end, lookups):
@@ -126,6 +127,12 @@ def correspondence(rep, rng, tier):
         if r:
             rep.add_failure(r[0], r[1], {'section': 'positions', 'decoder': n, 'case': r[2]})
     sec['dist'] = {'syscall_decoders': len(names), 'shaped_total': shaped}
+    _matching(rep, rng, tier)
+
+
+def _matching(rep, rng, tier):
+    from .. import pipeline as P
+    P.matching_search(rep, rng, tier, 'C09')
 
 
 def replay(path):
